@@ -34,6 +34,10 @@ def run(ctx):
     for i in range(ctx.scale(1200, 12000)):
         sc = B.gen_scenario(ctx.rng, with_fault=True)
         C05.one(ctx, sc, ctx.rng.randrange(1 << 30), component="batcher.fault", prop="C06")
+    # invocation level: a failing checkpoint call inside map/parallel (branches, timer thread) ends the invocation,
+    # never SUCCEEDED/PENDING and never a hang (executor theorems C06X_*)
+    from harness import comp_executor
+    comp_executor.run_fault(ctx, "C06")
 
 
 def search(ctx):
@@ -50,4 +54,8 @@ def search(ctx):
 
 def replay(ctx, rec):
     case = rec["case"]
+    if "blocks" in (case.get("scenario") or {}):
+        from harness import comp_executor
+        comp_executor.replay(ctx, rec, "C06")
+        return
     C05.one(ctx, case["scenario"], 0, schedule=case.get("decisions"), component="batcher.fault.replay", prop="C06")
